@@ -53,6 +53,7 @@ func zzNewPeer() (*Peer, *zzNet) {
 }
 
 func zzPeerID(i int) PeerID {
+	zzEnv()
 	s := zzPID0
 	if i == 1 {
 		s = zzPID1
